@@ -16,6 +16,8 @@
      list `cache` and call it; only AFTER the loop `self._route_cache[signature] = cache`.  An
      exception inside the loop therefore leaves the signature uncached (result `None` here) while
      entries written by nested dispatches stay.
+   * `TandemDispatcher.__call__`: the base dispatcher first; if its answer contains an event tagged
+     REJECT the answer is returned as it is, otherwise the followers run in order on the same action.
    * A `ContextDispatcher` holds a reference to the router it was created for and calls it
      re-entrantly with its `defined_action` (component addons).  The model makes that explicit:
      dispatchers are interpreted relative to a `router` function, the router passes ITSELF with one
@@ -34,6 +36,7 @@ Section Router.
   Variables Sig Act St Ev : Type.
   Variable sig_eqb : Sig -> Sig -> bool.          (* equality of dict keys (Python str ==) *)
   Variable sig_of : Act -> Sig.                   (* message_signature *)
+  Variable is_reject : Ev -> bool.                (* event["tag"] == Tag.REJECT *)
 
   Inductive disp : Type :=
   | Prim (inc : Sig -> bool) (call : Act -> St -> option (St * list Ev))
@@ -80,7 +83,11 @@ Section Router.
           if sig_eqb (sig_of a) w then router x defined st else (x, Some (st, []))
       | Tandem b nx =>
           match call_d b x a st with
-          | (x1, Some (st1, ev1)) => run_next (fun d' x' st' => call_d d' x' a st') nx x1 st1 ev1
+          | (x1, Some (st1, ev1)) =>
+              (* `if any(event["tag"] == Tag.REJECT for event in events): return events` (repair of the
+                 C07 audit finding F2): a rejected action is reported alone, the followers do not run *)
+              if existsb is_reject ev1 then (x1, Some (st1, ev1))
+              else run_next (fun d' x' st' => call_d d' x' a st') nx x1 st1 ev1
           | (x1, None) => (x1, None)
           end
       end.
